@@ -236,6 +236,13 @@ func weirdSubs(r *rng) astisub.Subtitles {
 		if s.Styles != nil && r.chance(3, 4) {
 			s.Styles[st.ID] = st
 		}
+		if s.Styles != nil && r.chance(1, 8) { // a key that is not the definition's identifier; a nil definition
+			if r.bool() {
+				s.Styles["k"+st.ID] = st
+			} else {
+				s.Styles["nil"+st.ID] = nil
+			}
+		}
 	}
 	for i := r.intn(3); i > 0; i-- {
 		rg := &astisub.Region{ID: []string{"", "r", "r 1", "é"}[r.intn(4)], InlineStyle: weirdAttrs(r)}
@@ -245,6 +252,13 @@ func weirdSubs(r *rng) astisub.Subtitles {
 		regions = append(regions, rg)
 		if s.Regions != nil && r.chance(3, 4) {
 			s.Regions[rg.ID] = rg
+		}
+		if s.Regions != nil && r.chance(1, 8) {
+			if r.bool() {
+				s.Regions["k"+rg.ID] = rg
+			} else {
+				s.Regions["nil"+rg.ID] = nil
+			}
 		}
 	}
 	if r.chance(1, 2) {
